@@ -346,8 +346,16 @@ def run_check(prop, tier, seed, repo='/repo'):
         cases = prop.corpus() + prop.generate(seed, tier, 1)
         out.samples = pick_samples(cases)
         mism, fails = evaluate(prop, impl_exe, model_exe, cases, out)
+        explained = set()
         for f in fails:
+            before = len(out.known)
+            matched_known = any(sig_matches(k.get('signature', {}), prop.signature(*f)) for k in known)
             report_fail(*f)
+            if matched_known:
+                explained.add(id(f[0]))
+        # a disagreement between implementation and model on a case that is a listed open finding (e.g. a
+        # non-deterministic defect the model cannot reproduce) is that finding, not a broken correspondence
+        mism = [m for m in mism if id(m[0]) not in explained]
         if mism:
             corr_ok = False
             first_mismatch = mism[0]
